@@ -4,6 +4,7 @@
     dt * g level step for ANY g whose last sub-step of every level is the whole remaining span. *)
 From Coq Require Import List Arith Bool ZArith QArith.
 From Naunet Require Import Lib.ListX Model.Solve Proofs.SolveProofs.
+From NaunetGen Require Import Tables.
 Import ListNotations.
 Open Scope Q_scope.
 
@@ -75,3 +76,10 @@ Theorem cusparse_refuted :
   exists dt y0 cs, fst (solve_cusparse dt y0 cs) = Success /\ ~ snd (solve_cusparse dt y0 cs) == y0 + dt.
 Proof. exact cusparse_refuted_lemma. Qed.
 Print Assumptions cusparse_refuted.
+
+(* tie to the current /repo (read from the text of the cvode template on every run): the recovery ladder has levels 1..5
+   (loop bound 6), 10 x level sub-steps per level, treats the flags -1..-4 (> -5) as "continue from where CVode stopped" and
+   -6 as "restart from the initial state" - the constants of Model.Solve (levels 5, nsub = 10 * level, cvflag =? -6) *)
+Theorem live_ladder_constants : solve_ladder_constants = [[6]; [10]; [-5]; [-6]]%Z.
+Proof. reflexivity. Qed.
+Print Assumptions live_ladder_constants.
